@@ -1332,7 +1332,10 @@ class ContactHandler(Messenger, dbus.service.Object):
                 delta_t = (rx_time - tx_time).total_seconds()
                 self._modulate_tx_seg_size(delta_b, delta_t)
 
-        item = self._tx_map[transfer_id]
+        item = self._tx_map.get(transfer_id)
+        if item is None:
+            # Not a transfer which is waiting on acknowledgment
+            raise RejectError(messages.RejectMsg.Reason.UNEXPECTED)
         item.ack_length = length
         if flags & messages.TransferSegment.Flag.END:
             if not self._do_send_ack_final:
